@@ -160,6 +160,16 @@ impl<'a, I, O> Visit for ExecStmt<'a, I, O> {
 }
 
 impl<'a, I: Read, O: Write> VisitProgram for ExecStmt<'a, I, O> {
+    fn visit_program(&mut self, p: &Program) -> visit::Result<Self> {
+        for b in &p.code {
+            self.visit_block(b)?;
+            if self.control_flow_state.skip_rest_of_block() {
+                break;
+            }
+        }
+        Ok(())
+    }
+
     fn visit_block(&mut self, b: &Block) -> visit::Result<Self> {
         match b {
             Block::Empty(_) => Ok(()),
